@@ -186,7 +186,11 @@ Theorem accepted_path_never_panics : forall host public p : bytes,
   sanitize_path p = Ok tt -> request_fs_path host public p <> Panic.
 Proof. exact request_fs_path_no_panic. Qed.
 
-(** 6. All histories.  [run_history c empty_state ops] is the list of answers of the fixture host [c]
+(** 6. All histories, through every front end.  A front end [f] says how a request target (HTTP/1.1) or
+    [:path] (HTTP/2) becomes the URI of the request, which [Origin] headers count as the site's own, what a
+    client can put on the connection and whether HEAD answers arrive without body ([front_inproc], [front_h1],
+    [front_h2], [front_h2raw] are the four that are run against the real code; the theorem holds for ANY).
+    [run_history_with f (fmt_std c) c empty_state ops] is the list of answers of the fixture host [c]
     (any host path, public directory, errors directory, default extensions or none, response cache on
     or off, file cache on or off, file system enabled or not, any table of path-bound handlers, the
     file system being ANY tree without symbolic links) to ANY sequence of requests (any method, any
@@ -197,35 +201,36 @@ Proof. exact request_fs_path_no_panic. Qed.
     directory by descending through child names, or the content of one of the operator's error pages
     ([error_path] of the host and a status code). *)
 Theorem history_bodies_confined :
-  forall (c : pcfg) (root cwd P : pos) (ops : list op),
+  forall (f : front) (c : pcfg) (root cwd P : pos) (ops : list op),
     benign_host (pc_host c) -> wf_pos root -> wf_pos cwd -> pc_fs c = read_path root cwd ->
     resolve_path root cwd (h_path (pc_host c) ++ [c_slash] ++ h_public (pc_host c)) = Some P ->
-    Forall (answer_ok c P) (run_history c empty_state ops).
+    Forall (answer_ok c P) (run_history_with f (fmt_std c) c empty_state ops).
 Proof. exact history_bodies_confined_lemma. Qed.
 
 (** 7. In every state (whatever earlier requests and alias steps put into the response cache, any
-    coherent file cache), a request whose percent-decoded path is unsafe is answered 400 with the
-    generated page or the operator's page for status 400, no Prepare extension is consulted or run
-    (empty log), the only object the operating system may have been asked to open is that page, the
-    response cache is left as it was and the file cache changes at most under that page's path. *)
+    coherent file cache), through every front end, a request whose percent-decoded path is unsafe is
+    answered 400 with the generated page or the operator's page for status 400, no Prepare extension is
+    consulted or run (empty log), the only object the operating system may have been asked to open is that
+    page, the response cache is left as it was and the file cache changes at most under that page's path. *)
 Theorem unsafe_request_is_400_in_every_state :
-  forall (c : pcfg) (st : pstate) (m t : bytes) (k : N) (p : bytes) (q : option bytes),
-    target_uri t = Some (p, q) -> unsafe (percent_decode p) -> fc_coherent (pc_fs c) (snd st) ->
+  forall (f : front) (c : pcfg) (st : pstate) (m t : bytes) (k : N) (p : bytes) (q : option bytes),
+    f_uri f t = Some (p, q) -> unsafe (percent_decode p) -> fc_coherent (pc_fs c) (snd st) ->
     exists (body : bytes) (opens : list bytes) (fc' : fcache),
-      step_request c st m t k = (XL [XN 400; XB body; XL []; x_list XB opens], (fst st, fc')) /\
+      step_request_with f (fmt_std c) c st m t k = (XL [XN 400; XB body; XL []; x_list XB opens], (fst st, fc')) /\
       (body = errpage \/ pc_fs c (error_path (pc_host c) 400) = Some body) /\
       Forall (fun o => In o (open_name (pc_tree c) (error_path (pc_host c) 400))) opens /\
-      (forall f, f <> error_path (pc_host c) 400 -> fc_get f fc' = fc_get f (snd st)).
+      (forall f0, f0 <> error_path (pc_host c) 400 -> fc_get f0 fc' = fc_get f0 (snd st)).
 Proof. exact unsafe_step_lemma. Qed.
 
-(** 8. When the CORS Prime extensions produce no override for a request ([eff_kind]: an [Origin] header naming
-    the site itself counts as foreign when the request target lengthens the URI's authority), the host answers it (and
-    updates its caches) exactly as the same host WITHOUT any path-bound Prepare extension whose key
-    contains "./" would: the internal routes do not exist for such a request, in any state. *)
+(** 8. When the CORS Prime extensions produce no override for a request ([f_kind]: with kvarn's HTTP/1 readers an
+    [Origin] header naming the site itself counts as foreign when the request target lengthens the URI's
+    authority), the host answers it (and updates its caches) exactly as the same host WITHOUT any path-bound
+    Prepare extension whose key contains "./" would: the internal routes do not exist for such a request, in
+    any state, through any front end. *)
 Theorem internal_routes_need_override :
-  forall (c : pcfg) (st : pstate) (m t : bytes) (k : N),
-    benign_host (pc_host c) -> override_of (pc_default_ext c) m (eff_kind t k) = None ->
-    step_request (strip_internal c) st m t k = step_request c st m t k.
+  forall (f : front) (c : pcfg) (st : pstate) (m t : bytes) (k : N),
+    benign_host (pc_host c) -> override_of (pc_default_ext c) m (f_kind f t k) = None ->
+    step_request_with f (fmt_std (strip_internal c)) (strip_internal c) st m t k = step_request_with f (fmt_std c) c st m t k.
 Proof. exact no_override_strip_lemma. Qed.
 
 (** 9. The definitions (from the proof files) that the statements above rest on, restated here with their
@@ -403,6 +408,20 @@ Example ex_history :
      XL [XN 403; XB cors_denied; XL []; XL []]; XL [XN 400; XB errpage; XL []; XL []];
      XL [XN 400; XB errpage; XL []; XL []]].
 Proof. vm_compute. reflexivity. Qed.
+(** the same host through the other front ends: over HTTP/2 a [:path] without a leading '/' never becomes a
+    request (the h2 layer refuses it), "*" is the path "*" (refused with 400 by kvarn), a HEAD answer has no body
+    (and fills the response cache: "?x" is then the cached "/index.html") *)
+Example ex_fronts :
+  run_history_with front_h2raw (fmt_std ex_pcfg) ex_pcfg empty_state
+    [OReq (B "GET") (B "../secret.txt") 0; OReq (B "GET") (B "*") 0; OReq (B "HEAD") (B "/index.html") 0;
+     OReq (B "GET") (B "/%252e%252e/x") 0; OReq (B "GET") (B "?x") 0; OReq (B "CONNECT") (B "/") 0]
+  = [XL [XN 96]; XL [XN 400; XB errpage; XL []; XL []];
+     XL [XN 200; XB []; XL [XB (B "pf")]; XL [XB (B "host/public/index.html")]];
+     XL [XN 404; XB (B "E404"); XL [XB (B "pf")]; XL [XB (B "host/errors/404.html")]];
+     XL [XN 200; XB (B "INDEX"); XL []; XL []]; XL [XN 96]] /\
+  run_history_with front_h1 (fmt_std ex_pcfg) ex_pcfg empty_state [OReq (B "GET") (B "*") 1; OReq (B "GET") (B "a b") 0]
+  = [XL [XN 403; XB cors_denied; XL []; XL []]; XL [XN 96]].
+Proof. split; vm_compute; reflexivity. Qed.
 Example ex_history_hyps :
   benign_host (pc_host ex_pcfg) /\ wf_pos (fixture_root ex_files) /\
   resolve_path (fixture_root ex_files) (fixture_root ex_files)
